@@ -20,7 +20,7 @@ type ChainProg struct {
 	Chains []ChainInfo
 }
 
-var chainKinds = []string{"func", "valmethod", "ptrmethod", "genfunc", "genmethod", "closurevar", "nested", "deferred", "goroutine"}
+var chainKinds = []string{"func", "valmethod", "ptrmethod", "genfunc", "genmethod", "closurevar", "nested", "deferred", "goroutine", "golit", "deferlit", "iife"}
 
 func genChainProg(r *rand.Rand, nchains int, kinds []string) *ChainProg {
 	mod := "zqchain" + randLower(r, 5) + ".example.com/tr"
@@ -82,6 +82,19 @@ func genChainProg(r *rand.Rand, nchains int, kinds []string) *ChainProg {
 			info.Kinds = append([]string{kind}, info.Kinds...)
 			tname := fmt.Sprintf("ZqT%d_%d", ci, i)
 			switch kind {
+			case "deferred", "deferlit", "iife":
+				// This frame will sit at a return site or at the closing "}()" of a literal,
+				// not at a call site: only its file is compared (see checkC04).
+				names[i] += "Zqnopos"
+			}
+			switch kind {
+			case "golit":
+				// a parameterless multi-line function literal whose body starts with a call
+				fmt.Fprintf(b, "//go:noinline\nfunc zqhop%[1]d_%[2]d(k int, done chan int) {\n\tdone <- %[4]s(k) + 1\n}\n\n//go:noinline\nfunc %[3]s(k int) int {\n\tdone := make(chan int)\n\tgo func() {\n\t\tzqhop%[1]d_%[2]d(k, done)\n\t}()\n\treturn <-done\n}\n\n", ci, i, names[i], next)
+			case "deferlit":
+				fmt.Fprintf(b, "//go:noinline\nfunc zqhop%[1]d_%[2]d(k int, r *int) {\n\t*r = %[4]s(k) + 1\n}\n\n//go:noinline\nfunc %[3]s(k int) (r int) {\n\tdefer func() {\n\t\tzqhop%[1]d_%[2]d(k, &r)\n\t}()\n\tk++\n\treturn k\n}\n\n", ci, i, names[i], next)
+			case "iife":
+				fmt.Fprintf(b, "//go:noinline\nfunc zqhop%[1]d_%[2]d(k int, r *int) {\n\t*r = %[4]s(k) + 1\n}\n\n//go:noinline\nfunc %[3]s(k int) int {\n\tres := 0\n\tfunc() {\n\t\tzqhop%[1]d_%[2]d(k, &res)\n\t}()\n\treturn res + 1\n}\n\n", ci, i, names[i], next)
 			case "func":
 				fmt.Fprintf(b, "//go:noinline\nfunc %s(k int) int {\n\tk++\n\treturn %s(k) + 1\n}\n\n", names[i], next)
 			case "valmethod":
